@@ -77,7 +77,7 @@ fn peephole2_helper(lines: &[Line], index: usize, ret: &mut Vec<Line>) -> bool {
             {
                 match (instr1, instr2) {
                     // PUSH POP
-                    (Instr::PushNil(n), Instr::Pop) => {
+                    (Instr::PushNil(n), Instr::Pop) if n > 0 => {
                         ret.push(Line::Instr {
                             instr: Instr::PushNil(n - 1),
                             lineno,
